@@ -292,7 +292,8 @@ struct EHist {
         SecureString other = pass == SecureString("other passphrase") ? SecureString("yet another") : SecureString("other passphrase");
         if (crash_mode) {
             std::ofstream f(side + "/meta.txt");
-            f << "pass1 " << HexStr(std::string(pass.begin(), pass.end())) << "\n" << "pass2 " << HexStr(std::string(other.begin(), other.end())) << "\n" << "scan_from_state " << scan_from_state << "\n";
+            // hex with an "x" prefix: the passphrase may be empty
+            f << "pass1 x" << HexStr(std::string(pass.begin(), pass.end())) << "\n" << "pass2 x" << HexStr(std::string(other.begin(), other.end())) << "\n" << "scan_from_state " << scan_from_state << "\n";
         }
         if (journal_only) {
             ScanOrFail(ws.DbDir(), "right after EncryptWallet returned (wallet still open), files next to wallet.dat", "c42.plaintext-secret-in-open-journal",
@@ -511,7 +512,7 @@ VERIF_TARGET(c42_recover, nullptr, 0, 8,
         VCHECK(w.IsLocked(), "c42.not-locked-after-reload", "encrypted crash image loads unlocked");
         SignOutcome lo = TrySign(w, scripts);
         VCHECK(!lo.complete && lo.verified == 0, "c42.signed-without-passphrase", "crash image, locked: valid signatures", lo.verified);
-        auto p1 = ParseHex(meta["pass1"]), p2 = ParseHex(meta["pass2"]);
+        auto p1 = ParseHex(meta["pass1"].substr(1)), p2 = ParseHex(meta["pass2"].substr(1));
         bool ok = w.Unlock(SecureString(p1.begin(), p1.end())) || w.Unlock(SecureString(p2.begin(), p2.end()));
         st.steps++;
         VCHECK(ok, "c42.right-passphrase-rejected", "neither of the workload's passphrases unlocks the encrypted crash image");
